@@ -60,7 +60,7 @@ macro_rules! fam_contract {
         $crate::check!(concat!($P, ":check-agrees"), rc.has_output() == r.has_output());
         let ok = r.into_result().is_ok();
         $crate::check!(concat!($P, ":into_result-ok-iff-error-free"), ok == acc);
-        $crate::cover!("cover:accept", acc);
+        $crate::cover!("cover:accept", rc.has_output());
         $crate::cover!("cover:reject", !acc || $always);
     }};
 }
@@ -231,7 +231,10 @@ macro_rules! fam_check_mode {
 /// same acceptance, same output digest, same errors (id, span).
 #[macro_export]
 macro_rules! fam_pair {
-    ($P:literal, $p:expr, $q:expr, $x:expr) => {{
+    ($P:literal, $p:expr, $q:expr, $x:expr) => {
+        $crate::fam_pair!($P, $p, $q, $x, false)
+    };
+    ($P:literal, $p:expr, $q:expr, $x:expr, $always:expr) => {{
         let r1 = $p.parse($x);
         let r2 = $q.parse($x);
         $crate::contract(&r1);
@@ -244,6 +247,6 @@ macro_rules! fam_pair {
         // (error CONTENTS are not compared here: reading them is not affordable for the solver when several
         // sites push errors; every emitter k reports emit_weight(k) copies, so the length identifies the set)
         $crate::cover!("cover:accept", o1.is_some());
-        $crate::cover!("cover:reject", o1.is_none());
+        $crate::cover!("cover:reject", o1.is_none() || $always);
     }};
 }
